@@ -212,14 +212,51 @@ def hexprism_mesh(rng, opts):
     return mesh
 
 
-POLYGONS = [   # planar lattice polygons (counter-clockwise), with their areas
-    ([(0, 0), (1, 0), (2, 0), (2, 1), (1, 1), (0, 1)], Fraction(2)),          # hexagon, collinear points
-    ([(0, 0), (2, 0), (2, 1), (1, 1), (1, 2), (0, 2)], Fraction(3)),          # L-shape (non-convex)
-    ([(0, 0), (2, 0), (3, 1), (2, 2), (0, 2), (-1, 1)], Fraction(6)),         # convex hexagon
-    ([(0, 0), (2, 0), (2, 1), (1, 2), (0, 1)], Fraction(7, 2)),               # pentagon
-    ([(0, 0), (1, 0), (1, 1), (0, 1)], Fraction(1)),                          # 4-gon
-    ([(0, 0), (2, 0), (1, 2)], Fraction(2)),                                  # 3-gon
+FRUSTA = {   # planar-faced, NOT affine images of the reference element; exact volumes
+    'hex': ([(0, 0, 0), (2, 0, 0), (2, 2, 0), (0, 2, 0), (0, 0, 1), (1, 0, 1), (1, 1, 1), (0, 1, 1)],
+            Fraction(7, 3)),
+    'prism': ([(0, 0, 0), (0, 2, 0), (2, 0, 0), (0, 0, 1), (0, 1, 1), (1, 0, 1)], Fraction(7, 6)),
+    'pyr': ([(0, 0, 0), (2, 0, 0), (1, 1, 0), (0, 1, 0), (0, 0, 1)], Fraction(1, 2)),
+}
+
+
+def frustum_mesh(rng, kinds, opts):
+    pts, index, elems = [], {}, []
+
+    def pid(p):
+        if p not in index:
+            index[p] = len(pts)
+            pts.append(p)
+        return index[p]
+    d = Fraction(det3(opts['matrix'][1]))
+    for k in range(rng.randint(1, 3)):
+        ty = rng.choice(kinds)
+        corners, vol = FRUSTA[ty]
+        conn = [pid((c[0] + 3 * k, c[1], c[2])) for c in corners]
+        elems.append((ty, conn, d * vol))
+    opts = dict(opts, jitter=False)
+    mesh = finalize(rng, pts, elems, opts)
+    mesh['meta']['dim'] = 3
+    mesh['meta']['kinds'] = sorted(set(e[0] for e in elems))
+    mesh['meta']['box_volume'] = None
+    mesh['meta']['frustum'] = True
+    return mesh
+
+
+def shoelace(poly):
+    return Fraction(sum(poly[k - 1][0] * poly[k][1] - poly[k][0] * poly[k - 1][1]
+                        for k in range(len(poly))), 2)
+
+
+_POLYS = [   # planar lattice polygons (counter-clockwise)
+    [(0, 0), (1, 0), (2, 0), (2, 1), (1, 1), (0, 1)],          # hexagon with collinear points
+    [(0, 0), (2, 0), (2, 1), (1, 1), (1, 2), (0, 2)],          # L-shape (non-convex)
+    [(0, 0), (2, 0), (3, 1), (2, 2), (0, 2), (-1, 1)],         # convex hexagon
+    [(0, 0), (2, 0), (2, 1), (1, 2), (0, 1)],                  # pentagon
+    [(0, 0), (1, 0), (1, 1), (0, 1)],                          # 4-gon
+    [(0, 0), (2, 0), (1, 2)],                                  # 3-gon
 ]
+POLYGONS = [(p, shoelace(p)) for p in _POLYS]
 
 
 def shell_mesh(rng, kinds, opts):
